@@ -16,5 +16,5 @@ one() {
   echo "$pf: ${hits:- silent}"
 }
 export -f one; export PROPS
-ls ${@:-/tmp/refactor_out/*/*/patch.diff} | xargs -P 12 -I{} bash -c 'one {}' | sort
+ls ${@:-/verif/refactors/*/patch.diff} | xargs -P 12 -I{} bash -c 'one {}' | sort
 git -C /repo worktree prune
